@@ -3,6 +3,7 @@ package props
 import (
 	"fmt"
 	"strings"
+	"verif/mon"
 
 	"verif/fw"
 )
@@ -41,6 +42,22 @@ func c10Run(c *fw.Case, env *fw.Env) *fw.Obs {
 	}
 	if p.FF != "" {
 		class += "/" + p.FF
+	}
+	// the mode in force: a flag on the command line beats merge.fastForward from the configuration
+	eff := p.FF
+	if eff == "ff" {
+		eff = ""
+	} else if eff == "" {
+		eff = map[string]string{"never": "no-ff", "only": "ff-only"}[p.FFConf]
+	}
+	if p.FFConf != "" {
+		if out, err, pn := mon.Wrgl(w.localDir, nil, "config", "set", "merge.fastForward", p.FFConf); err != nil || pn != "" {
+			o.Status = "inconclusive"
+			o.Note = fmt.Sprintf("config set merge.fastForward: %v %s %s", err, pn, out)
+			return o
+		}
+		class += "/configured-" + p.FFConf
+		o.Ev("merges_with_configured_mode", 1)
 	}
 	if p.All {
 		class += "/all"
@@ -206,9 +223,9 @@ func c10Run(c *fw.Case, env *fw.Env) *fw.Obs {
 			if out.err != nil && p.Peel == 0 { // a target spelled below the branch is rightly refused
 				o.Violate("fast-forward-refused/"+class, "%s is an ancestor of the other commit, so this is a plain fast-forward, yet the command failed: %v", name, out.err)
 			}
-			if p.FF == "no-ff" {
+			if eff == "no-ff" {
 				if out.err == nil && (after == before || !isAnc(before, after) || !isAnc(remote, after)) {
-					o.Violate("no-ff-merge-wrong/"+class, "--no-ff: %s went %x -> %x (must be a new commit descending from both %x and %x)", name, before, after, before, remote)
+					o.Violate("no-ff-merge-wrong/"+class, "no fast-forward asked for: %s went %x -> %x (must be a new commit descending from both %x and %x)", name, before, after, before, remote)
 				}
 			} else if out.err == nil && after != remote {
 				o.Violate("fast-forward-not-exact/"+class, "fast-forward merge: %s is at %x, the other commit is %x", name, after, remote)
@@ -220,13 +237,13 @@ func c10Run(c *fw.Case, env *fw.Env) *fw.Obs {
 				o.Violate("branch-moved-backwards/"+class, "merging an ancestor moved %s from %x to %x, which does not descend from it", name, before, after)
 			}
 		case pl.Relation == "diverged":
-			if p.FF == "ff-only" {
+			if eff == "ff-only" {
 				o.Ev("ff_only_refusals_expected", 1)
 				if after != before {
-					o.Violate("ff-only-merged-anyway/"+class, "--ff-only on diverged histories moved %s from %x to %x", name, before, after)
+					o.Violate("ff-only-merged-anyway/"+class, "fast-forward only, on diverged histories: moved %s from %x to %x", name, before, after)
 				}
 				if out.err == nil {
-					o.Violate("ff-only-not-refused/"+class, "--ff-only on diverged histories reported success")
+					o.Violate("ff-only-not-refused/"+class, "fast-forward only, on diverged histories: reported success")
 				}
 			} else if after != before && (!isAnc(before, after) || !isAnc(remote, after)) {
 				o.Violate("merge-commit-wrong-parents/"+class, "merge moved %s from %x to %x which does not descend from both sides", name, before, after)
@@ -317,6 +334,13 @@ func init() {
 			for i, ff := range []string{"", "no-ff", "ff-only"} {
 				l.Add("merge", netParams{Op: "merge", N: 8, BaseRows: 4, Branches: 1, Rel: "remote-behind", FF: ff}, int64(1001+i))
 				l.Add("merge", netParams{Op: "merge", N: 8, BaseRows: 4, Branches: 1, Rel: "remote-ahead", FF: ff}, int64(1011+i))
+			}
+			// merge.fastForward from the configuration, alone and overridden by a flag
+			for i, rel := range []string{"remote-ahead", "diverged", "remote-ahead", "diverged", "remote-behind", "remote-ahead", "diverged", "remote-ahead"} {
+				l.Add("merge", netParams{Op: "merge", N: 8, BaseRows: 4, Branches: 1, Rel: rel, FFConf: []string{"never", "only"}[i/2%2], FF: []string{"ff", "", "ff", "no-ff", "ff-only", "ff"}[i%6]}, int64(1121+i))
+			}
+			for i, rel := range []string{"remote-ahead", "diverged", "remote-ahead", "diverged"} {
+				l.Add("pull", netParams{Op: "pull", N: 8, BaseRows: 4, Branches: 1, Rel: rel, FFConf: []string{"never", "only"}[i/2%2], FF: []string{"ff", "ff", "", "ff"}[i%4]}, int64(1141+i))
 			}
 			// the merge target spelled as "a commit below the branch": whatever wrgl does with it, the branch may only
 			// move forward along its own history
